@@ -180,10 +180,29 @@ def check_undo(crate, rep, cfg):
         rep.add("C10.UNDO", "C10.UNDO:load_from_glob:swap-back", ok, b.where(0), "load_from_glob restores the previous template map on error" + ("" if ok else " — VIOLATED"))
 
 
+def commit_written_fields(crate):
+    """Template fields assigned by finalize_templates / set_templates_auto_escape: by definition the derived state"""
+    out = set(DERIVED_T)
+    tpl = crate.adts.get("template::Template")
+    names = {f["n"] for f in tpl.fields()} if tpl else set()
+    for path in ("tera::Tera::finalize_templates", "tera::Tera::set_templates_auto_escape"):
+        b = crate.bodies.get(path)
+        if b is None:
+            continue
+        for bb, idx, s in b.stmts():
+            if idx != "t" and s["k"] == "assign":
+                for p in s["pl"]["p"]:
+                    if isinstance(p, dict) and p.get("o") == "template::Template" and p.get("n") in names:
+                        out.add(p["n"])
+    return sorted(out)
+
+
 def check_derived(crate, rep, cfg):
     allowed_writers = {"template::Template::new", "tera::Tera::finalize_templates", "tera::Tera::set_templates_auto_escape", "tera::Tera::render_str_to"}
     n = 0
-    for f in DERIVED_T:
+    derived = commit_written_fields(crate)
+    rep.ok("C10.DERIVED", "C10.DERIVED:derived-set", "", "derived Template fields = those written by the commit / set_templates_auto_escape: %s" % derived)
+    for f in derived:
         for a in field_accesses(crate, "template::Template", f):
             root = crate.root_of(a["body"]).path
             if a["kind"] in ("assign", "assign-part", "agg-init") or (a["kind"] == "call" and a["mut"] and not a.get("by_value")):
